@@ -3851,11 +3851,12 @@ func recv(n *node) {
 				done := f.done
 				f.mutex.RUnlock()
 
-				var chosen int
-				chosen, getFrame(f, l).data[i], _ = reflect.Select([]reflect.SelectCase{done, {Dir: reflect.SelectRecv, Chan: ch}})
+				chosen, v, _ := reflect.Select([]reflect.SelectCase{done, {Dir: reflect.SelectRecv, Chan: ch}})
 				if chosen == 0 {
+					// Cancelled: the destination, possibly a function result, keeps its value.
 					return nil
 				}
+				getFrame(f, l).data[i] = v
 				return tnext
 			}
 		}
